@@ -5,7 +5,7 @@ import ast
 from typing import Optional
 
 from ..astutil import call_name, is_self_attr
-from ..frontend import AnalysisError, ClassInfo, FunctionInfo, walk_local
+from ..frontend import AnalysisError, ClassInfo, FunctionInfo, norm, walk_local
 from ..report import Ctx
 
 TRACKER = "geneticengine.evaluation.tracker.ProgressTracker"
@@ -60,3 +60,52 @@ def receiver_is(ctx: Ctx, fn: FunctionInfo, expr: ast.AST, base: str) -> bool:
 def receiver_may_be(ctx: Ctx, fn: FunctionInfo, expr: ast.AST, base: str) -> bool:
     cs = ctx.res.receiver_classes(fn, expr)
     return any(ctx.prog.is_subclass(c, base) for c in cs)
+
+
+def check_yields_all(ctx: Ctx, rule: str, f: FunctionInfo) -> None:
+    """evaluate_async must yield every individual of its input exactly once, cached or not: trackers compare,
+    count rows and report 'best' only for what is yielded."""
+    from ..paths import paths, stmts_on
+    from ..frontend import ancestors
+    inp = f.params[2]
+    # names holding the complete input
+    whole = {inp}
+    for a in walk_local(f.node):
+        if isinstance(a, ast.Assign) and len(a.targets) == 1 and isinstance(a.targets[0], ast.Name):
+            v = a.value
+            if isinstance(v, ast.Call) and call_name(v) in ("list", "tuple") and v.args and isinstance(v.args[0], ast.Name) \
+                    and v.args[0].id in whole:
+                whole.add(a.targets[0].id)
+            elif isinstance(v, ast.ListComp) and len(v.generators) == 1 and not v.generators[0].ifs \
+                    and isinstance(v.generators[0].iter, ast.Name) and v.generators[0].iter.id in whole \
+                    and isinstance(v.elt, ast.Name):
+                whole.add(a.targets[0].id)
+    ys = [y for y in walk_local(f.node) if isinstance(y, (ast.Yield, ast.YieldFrom))]
+    if not ys:
+        ctx.ob(rule, f, f.node, "evaluate_async yields every input individual", False,
+               "nothing is yielded: trackers never see the evaluated individuals")
+        return
+    for y in ys:
+        if isinstance(y, ast.YieldFrom):
+            ok = isinstance(y.value, ast.Name) and y.value.id in whole and not any(
+                isinstance(a, (ast.For, ast.While, ast.If)) for a in ancestors(y) if a is not f.node and not isinstance(a, (ast.FunctionDef,)))
+            ctx.ob(rule, f, y, "evaluate_async yields every input individual", ok,
+                   "" if ok else f"'yield from {norm(y.value)}' does not hand back the complete input unconditionally")
+            continue
+        loop = next((a for a in ancestors(y) if isinstance(a, (ast.For, ast.AsyncFor))), None)
+        if loop is None or not (isinstance(loop.iter, ast.Name) and loop.iter.id in whole and isinstance(loop.target, ast.Name)):
+            ctx.ob(rule, f, y, "evaluate_async yields every input individual", False,
+                   "the yield is not inside a loop over the complete input")
+            continue
+        var = loop.target.id
+        bad = []
+        for pth in paths(loop.body, unroll_loops=False):
+            n = sum(1 for st in stmts_on(pth) for z in ast.walk(st) if isinstance(z, ast.Yield)
+                    and isinstance(z.value, ast.Name) and z.value.id == var)
+            if n != 1 and pth[-1][1] != "raise":
+                bad.append((n, [norm(t)[:40] + "=" + str(pol) for (k_, t, pol) in [e for e in pth if e[0] == "cond"]]))
+        ctx.ob(rule, f, y, "evaluate_async yields every input individual exactly once (cached or not)", not bad,
+               "" if not bad else f"on the path {bad[0][1]} the individual is yielded {bad[0][0]} times: a tracker never "
+                                  f"sees (compares, records) an individual that already had a fitness",
+               witness=bad)
+        break
